@@ -117,18 +117,10 @@ pub fn k_c19_map_indexes_pairs() {
     vreach!("C19.map_indexes.reach");
 }
 
-//# harness: fn=BatchMerkleProof::read_from; label=bounded(all byte strings of length <= 11); tier=quick; props=C05; timeout=400
-#[cfg_attr(kani, kani::proof)]
-#[cfg_attr(kani, kani::unwind(13))]
-#[cfg_attr(kani, kani::stub(alloc::fmt::format, vs::fake_format))]
-pub fn k_c05_batch_proof_decode() {
-    let bytes: [u8; 11] = vs::any_bytes();
-    let len = vs::any_usize();
-    vs::assume(len <= 11);
-    let mut r = SliceReader::new(&bytes[..len]);
-    let _ = BatchMerkleProof::<HM>::read_from(&mut r);
-    vreach!("C05.batch_proof.decode.reach");
-}
+// (BatchMerkleProof::read_from is NOT under a direct contract: a harness over all byte strings of length <= 3
+// needed 20-65 GB of solver memory because of the nested symbolic-capacity Vec<Vec<Digest>> allocation, at
+// every input length tried. It is the composition read_u8 ; read_usize ; n x Vec::<Digest>::read_from, whose
+// decoders are under contract in the c26_serde unit - a composition argument, not a checked obligation.)
 
 // ------------------------------------------------------------------------------------------------
 // C19: malformed batch inputs never panic (concrete shapes, symbolic contents)
